@@ -796,9 +796,63 @@ func c12_5(c *core.Ctx, p *core.Prog) {
 		return
 	}
 	fn := pub.Parent()
+	// the retiring loop may live in a helper of its own (`p.retireStreamProducers(payloadType)`): it is judged where
+	// the delete is, and ordered against the registration in the function that calls both
+	cleanFn := fn
+	for _, f := range arrowRecordFuncs(p) {
+		core.EachInstr(f, func(i ssa.Instruction) {
+			if cl, ok := i.(*ssa.Call); ok {
+				if b, ok := cl.Call.Value.(*ssa.Builtin); ok && b.Name() == "delete" && isFieldLoad(cl.Call.Args[0], a.mapF) && core.FuncName(f) != core.FuncName(fn) {
+					// a delete outside the registering function: the retiring helper, unless it is the producer's Close
+					hasCmp := false
+					core.EachInstr(f, func(j ssa.Instruction) {
+						if iff, ok := j.(*ssa.If); ok {
+							if cmp, ok := iff.Cond.(*ssa.BinOp); ok && cmp.Op == token.EQL && (core.TypeName(cmp.X.Type()) == "ArrowPayloadType" || core.TypeName(cmp.X.Type()) == "PayloadType") {
+								hasCmp = true
+							}
+						}
+					})
+					if hasCmp {
+						cleanFn = f
+					}
+				}
+			}
+		})
+	}
+	// a value that is the message's payload type: the call itself, or a parameter of the helper that every call site
+	// binds to it
+	fromMsgOrParam := func(host *ssa.Function, v ssa.Value) bool {
+		if fromMsg(v) {
+			return true
+		}
+		prm, ok := v.(*ssa.Parameter)
+		if !ok {
+			return false
+		}
+		idx := -1
+		for k, q := range host.Params {
+			if q == prm {
+				idx = k
+			}
+		}
+		all, n := true, 0
+		for _, g := range arrowRecordFuncs(p) {
+			for _, g2 := range core.WithClosures(g) {
+				core.EachCall(g2, func(ci ssa.CallInstruction) {
+					if ci.Common().StaticCallee() == host && idx >= 0 && idx < len(ci.Common().Args) {
+						n++
+						if !fromMsg(ci.Common().Args[idx]) {
+							all = false
+						}
+					}
+				})
+			}
+		}
+		return all && n > 0
+	}
 	var del, closeC *ssa.Call
 	var cmpIf *ssa.If
-	core.EachInstr(fn, func(i ssa.Instruction) {
+	core.EachInstr(cleanFn, func(i ssa.Instruction) {
 		cl, ok := i.(*ssa.Call)
 		if ok {
 			if b, ok := cl.Call.Value.(*ssa.Builtin); ok && b.Name() == "delete" && isFieldLoad(cl.Call.Args[0], a.mapF) {
@@ -828,7 +882,7 @@ func c12_5(c *core.Ctx, p *core.Prog) {
 		if !core.GuardedBy(cmpIf, true, del) || !core.GuardedBy(cmpIf, true, closeC) {
 			msgs = append(msgs, "Close/delete are not guarded by the payload-type comparison")
 		}
-		if !core.Reachable(fn, closeC, del) {
+		if !core.Reachable(cleanFn, closeC, del) {
 			msgs = append(msgs, "the old writer is not closed before its entry is deleted")
 		}
 		cmp := cmpIf.Cond.(*ssa.BinOp)
@@ -837,15 +891,46 @@ func c12_5(c *core.Ctx, p *core.Prog) {
 			if fa := core.LoadedField(sd); fa != nil && core.FieldVar(fa) == ptF {
 				sideField = true
 			}
-			if fromMsg(sd) {
+			if fromMsgOrParam(cleanFn, sd) {
 				sideMsg = true
 			}
 		}
 		if !sideField || !sideMsg {
 			msgs = append(msgs, "the comparison is not between a registered stream producer's payload type and the message's payload type")
 		}
-		if !core.Reachable(fn, cmpIf, pub) || core.Reachable(fn, pub, cmpIf) {
-			msgs = append(msgs, "the clean-up does not run before the new stream producer is registered")
+		if cleanFn == fn {
+			if !core.Reachable(fn, cmpIf, pub) || core.Reachable(fn, pub, cmpIf) {
+				msgs = append(msgs, "the clean-up does not run before the new stream producer is registered")
+			}
+		} else {
+			// both in helpers: in the function that calls the two, the retiring call comes first and, between it and the
+			// registering call, only its own failure leaves
+			ordered := false
+			for _, g := range arrowRecordFuncs(p) {
+				for _, host := range core.WithClosures(g) {
+					var callClean, callPub ssa.Instruction
+					core.EachCall(host, func(ci ssa.CallInstruction) {
+						switch ci.Common().StaticCallee() {
+						case cleanFn:
+							callClean = ci
+						case fn:
+							callPub = ci
+						}
+					})
+					if fn == host {
+						callPub = pub
+					}
+					if callClean != nil && callPub != nil && core.Reachable(host, callClean, callPub) && !core.Reachable(host, callPub, callClean) {
+						skip, _ := (core.PathQuery{Fn: host, To: callPub, Avoid: func(i ssa.Instruction) bool { return i == callClean }}).Exists()
+						if !skip {
+							ordered = true
+						}
+					}
+				}
+			}
+			if !ordered {
+				msgs = append(msgs, "the clean-up (in "+cleanFn.Name()+") does not run before the new stream producer is registered (in "+fn.Name()+")")
+			}
 		}
 		if ex, ok := del.Call.Args[1].(*ssa.Extract); !ok || ex.Index != 1 {
 			msgs = append(msgs, "the deleted key is not the key of the matching entry")
@@ -944,10 +1029,12 @@ func c12_6(c *core.Ctx, p *core.Prog) {
 		msgs = append(msgs, "the writer is not created with WithSchema(record.Schema())")
 	}
 	storedIn := false
-	for _, r := range core.Referrers(at(newW)) {
-		if s, ok := r.(*ssa.Store); ok {
-			if fa, ok := s.Addr.(*ssa.FieldAddr); ok && core.NamedOf(fa.X.Type()) == a.sp {
-				storedIn = true
+	for _, w := range []*ssa.Call{at(newW), newW} { // at the site, or inside the helper that creates it
+		for _, r := range core.Referrers(w) {
+			if s, ok := r.(*ssa.Store); ok {
+				if fa, ok := s.Addr.(*ssa.FieldAddr); ok && core.NamedOf(fa.X.Type()) == a.sp {
+					storedIn = true
+				}
 			}
 		}
 	}
@@ -955,13 +1042,23 @@ func c12_6(c *core.Ctx, p *core.Prog) {
 		msgs = append(msgs, "the writer is not kept in the stream producer")
 	}
 	guardedNil := false
-	for _, b := range fn.Blocks {
-		iff := core.IfOf(b)
-		if iff == nil {
-			continue
-		}
-		if cmp, ok := iff.Cond.(*ssa.BinOp); ok && cmp.Op == token.EQL && core.IsNilConst(cmp.Y) && core.LoadedField(cmp.X) != nil && core.GuardedBy(iff, true, at(newW)) {
-			guardedNil = true
+	for _, w := range []*ssa.Call{at(newW), newW} { // the nil test may sit in the helper (`if sp.ipcWriter != nil { return }`)
+		for _, b := range w.Parent().Blocks {
+			iff := core.IfOf(b)
+			if iff == nil {
+				continue
+			}
+			cmp, ok := iff.Cond.(*ssa.BinOp)
+			if !ok || !core.IsNilConst(cmp.Y) || (cmp.Op != token.EQL && cmp.Op != token.NEQ) {
+				continue
+			}
+			fa := core.LoadedField(cmp.X)
+			if fa == nil || core.NamedOf(fa.X.Type()) != a.sp {
+				continue
+			}
+			if core.GuardedBy(iff, cmp.Op == token.EQL, w) {
+				guardedNil = true
+			}
 		}
 	}
 	if !guardedNil {
